@@ -68,8 +68,8 @@ func (t *Tape) Draw(n int) int {
 
 // Biased returns 0 with probability 1-num/den, otherwise uniformly 1..n-1.
 func (t *Tape) Biased(n int, num, den int) int {
-	if n <= 1 {
-		return t.put(0)
+	if n <= 1 || num <= 0 {
+		return t.put(0) // natural policy: also when replaying
 	}
 	if t.isRep {
 		v := t.replay[t.Pos]
